@@ -2,6 +2,7 @@
 """Developer tool: run every quick check against every kept seeded break and record which checks fire.
 
   selftest/matrix.py [--jobs 3] [--only C01-m1,...] [--checks C01,C02,...] [--with-c04 C01,C02,...]
+  selftest/matrix.py --related 1 [--jobs 3]      own check plus the checks of neighbouring properties only (RELATED)
 
 Results go into seeded/<id>/meta.json ("checks") and seeded/MATRIX.md."""
 import concurrent.futures as cf
@@ -14,6 +15,15 @@ import sys
 
 VERIF = os.path.dirname(os.path.dirname(os.path.abspath(__file__)))
 ALL = ["C%02d" % i for i in range(1, 21)]
+
+
+RELATED = {
+    "C01": ["C01", "C02", "C03", "C04"], "C02": ["C02", "C01", "C03", "C04", "C20"], "C03": ["C03", "C01", "C06", "C08", "C04"],
+    "C04": ["C04", "C02", "C10", "C11", "C12", "C20"], "C05": ["C05", "C13"], "C06": ["C06", "C08", "C19"], "C07": ["C07", "C14", "C18"],
+    "C08": ["C08", "C06", "C09"], "C09": ["C09", "C08"], "C10": ["C10", "C04"], "C11": ["C11", "C04"], "C12": ["C12", "C04"],
+    "C13": ["C13", "C05"], "C14": ["C14", "C07"], "C15": ["C15"], "C16": ["C16"], "C17": ["C17", "C18"], "C18": ["C18", "C17"],
+    "C19": ["C19", "C06"], "C20": ["C20", "C02", "C01"],
+}
 
 
 def run_one(d, checks):
@@ -38,6 +48,7 @@ def main():
     only = None
     checks = [c for c in ALL if c != "C04"]
     with_c04 = ["C01", "C02", "C03", "C04", "C07", "C11", "C12", "C20"]
+    related = False
     i = 0
     while i < len(args):
         if args[i] == "--jobs":
@@ -46,6 +57,8 @@ def main():
             only = args[i + 1].split(",")
         elif args[i] == "--checks":
             checks = args[i + 1].split(",")
+        elif args[i] == "--related":
+            related = True
         elif args[i] == "--with-c04":
             with_c04 = [x for x in args[i + 1].split(",") if x]
         i += 2
@@ -56,7 +69,9 @@ def main():
     for d in dirs:
         prop = os.path.basename(d).split("-")[0]
         cs = list(checks)
-        if prop in with_c04 and "C04" not in cs:
+        if related:
+            cs = list(RELATED[prop])
+        elif prop in with_c04 and "C04" not in cs:
             cs.append("C04")
         work.append((d, cs))
     with cf.ThreadPoolExecutor(max_workers=jobs) as ex:
